@@ -12,6 +12,15 @@
     #if are run as well.
  V  seeded random libraries with arbitrary (cyclic) call graphs are run on the real code,
     and the recorded cases are evaluated by the twin in TLC (Universe = "FILE").
+ L  nesting ladders (Gen_ExpanderDepth.tla): WHAT is nested (transclusions in positional /
+    named arguments, parser functions in branch / name position, argument references with
+    defaults or computed names, links, #invoke arguments, alternations of these) x HOW DEEP
+    (around the limit, 2x, 5x, 10x, 20x) x WHERE (page text, template bodies, two bodies
+    deep).  TLC evaluates the twin in the ideal design (every kind of nesting counts towards
+    the depth limit) and in the as-is design (deviation NestingOutsideCallsUnbounded), checks
+    PeakBounded / DeepIsCut and prints each ladder in factored form with the predicted
+    class; the real expand() must return a string without raising within the time bound;
+    a cut must come with a recorded error; a class other than predicted is DRIFT.
 (b) totality of the parser functions: harness/c05b.py (spec/Expr.tla etc.).
 """
 from __future__ import annotations
@@ -19,6 +28,7 @@ from __future__ import annotations
 import importlib
 import json
 import random
+import threading
 import time
 from pathlib import Path
 
@@ -130,6 +140,124 @@ def run_nests(chunk):
     return res
 
 
+# ---------------------------------------------------------------------------------------
+# nesting ladders
+DEV_NESTING = "NestingOutsideCallsUnbounded"
+
+
+class LadderTLC(threading.Thread):
+    """Runs the ladder generator (and the demo of the deviation) beside the rest of the check."""
+
+    def __init__(self, tier):
+        super().__init__(daemon=True)
+        self.tier = tier
+        self.res = self.demo = self.err = None
+
+    def run(self):
+        try:
+            self.res = tlc("Gen_ExpanderDepth", f"Gen_ExpanderDepth_{self.tier}.cfg", workers=1, timeout=3000)
+            self.demo = tlc("Gen_ExpanderDepth", "Demo_ExpanderDepth_unbounded.cfg", workers=1, timeout=600, check=False)
+        except BaseException as e:  # noqa: BLE001  (re-raised by the main thread)
+            self.err = e
+
+
+def ladder_text(seg):
+    """open(1) .. open(n) core close(n) .. close(1), all pieces as printed by TLC."""
+    opens = [tr.text(a) for a in seg["opens"]]
+    closes = [tr.text(a) for a in seg["closes"]]
+    k, n = len(opens), seg["n"]
+    s = "".join(opens[i % k] for i in range(n)) + tr.text(seg["core"]) + "".join(closes[i % k] for i in reversed(range(n)))
+    if seg["full"] and s != tr.text(seg["full"]):
+        raise common.TLCError(f"ladder assembly differs from the rendering by TLC: {seg['pat']} x {seg['n']}")
+    return s
+
+
+def ladder_name(c):
+    return " / ".join(("page" if i == 0 else "body of " + seg["name"]) + ": " + "+".join(seg["pat"]) + f" x{seg['n']}" for i, seg in enumerate(c["segs"]))
+
+
+def run_ladders(idxs):
+    common.use_repo()
+    import signal
+
+    cases = _G["ladders"]
+    res = []
+    shared = None  # one context for the ladders that need no template of their own, renewed after an exception
+    with Scratch("c05l-") as d:
+        for idx in idxs:
+            c = cases[idx]
+            texts = [ladder_text(seg) for seg in c["segs"]]
+            own = len(texts) > 1
+            ctx = ex.make_ctx(d, c["base"], [], PREBODY, f"l{idx}") if own or shared is None else shared
+            if not own:
+                shared = ctx
+            try:
+                for seg, body in zip(c["segs"][1:], texts[1:]):
+                    ctx.add_page("Template:" + seg["name"], 10, body=body)
+                ctx.db_conn.commit()
+                ctx.start_page("Pg")
+                exc = out = None
+                signal.signal(signal.SIGALRM, ex._alarm)
+                signal.alarm(int(6 * TIME_BOUND))
+                t0, c0 = time.time(), time.process_time()
+                try:
+                    out = ctx.expand(texts[0])
+                except ex.HardLimit:
+                    c0 -= 100 * TIME_BOUND  # reported as far beyond the time bound
+                    out = ""
+                except Exception as e:  # noqa: BLE001
+                    exc = repr(e)[:200]
+                finally:
+                    signal.alarm(0)
+                res.append({"idx": idx, "src": texts[0], "out": out, "nout": ex.norm_out(out) if isinstance(out, str) else None, "exc": exc,
+                            "wall": time.time() - t0, "cpu": time.process_time() - c0, "msgs": ex.msg_summary(ctx)})
+            finally:
+                if own or exc is not None or out == "":
+                    ctx.db_conn.close()
+                    if not own:
+                        shared = None
+        if shared is not None:
+            shared.db_conn.close()
+    return res
+
+
+def judge_ladder(o: Outcome, c, ob):
+    o.evaluations += 1
+    name = ladder_name(c)
+    case = {"origin": "ladder", "ladder": name, "page": ob["src"][:160] + (" ..." if len(ob["src"]) > 160 else ""), "page_chars": len(ob["src"]),
+            "out": (ob["out"] or "")[:300], "exception": ob["exc"], "cpu_s": round(ob["cpu"], 2), "wall_s": round(ob["wall"], 2), "messages": ob["msgs"][:4],
+            "model": {"ideal": c["cls"], "as_is": "overrun" if c["asis_overrun"] else c["asis_cls"], "peak": c["peak"], "as_is_peak": c["asis_peak"]}}
+    o.shape(("ladder", name))
+    if ob["exc"] is not None:
+        why = (f"expand() raised {ob['exc']} on the nesting ladder [{name}]: the nesting was not stopped by the depth limit "
+               "(specification: recursion is cut at the limit whatever is nested, with the in-band 'too deep recursion' error element and a recorded error)")
+        # explained by the as-is design only where that design lets the recursion leave the bounded region
+        o.classify(case, why, [DEV_NESTING] if c["asis_overrun"] else [], cls="exception-nesting")
+        return
+    if not isinstance(ob["out"], str):
+        o.violation(case, "expand() did not return a string", cls="type")
+        return
+    if ob["cpu"] > TIME_BOUND:
+        o.violation(case, f"expand() needed {ob['cpu']:.1f}s CPU (> {TIME_BOUND}s) on the nesting ladder [{name}] ({len(ob['src'])} characters)", cls="time")
+        return
+    real_cut = "<ERR:depth>" in ob["nout"]
+    real_msg = any(s == "core/1115" for _, s in ob["msgs"])
+    if real_cut and not real_msg:
+        o.violation(case, f"a 'too deep recursion' error element is in the output of the nesting ladder [{name}] but no error was recorded", cls="cut-without-message")
+        return
+    # where exactly the limit lies for each construct is not fixed by the statement
+    model_msg = any(m["sortid"] == "core/1115" for m in c["msgs"])
+    # (complete outputs are compared where no error element is involved)
+    if (real_cut, real_msg) != (c["cls"] == "cut", model_msg) or (not real_msg and ob["nout"] != tr.text(c["out"])):
+        asis_msg = any(m["sortid"] == "core/1115" for m in c["asis_msgs"])
+        if c["asis_overrun"] or ((real_cut, real_msg) == (c["asis_cls"] == "cut", asis_msg) and (real_msg or ob["nout"] == tr.text(c["asis_out"]))):
+            # the as-is design (its prediction, or beyond the region in which it predicts anything), no exception: nothing to report
+            _G["asis_ladders"] = _G.get("asis_ladders", 0) + 1
+        else:
+            o.note_drift({"ladder": name, "model": c["cls"] + ("+error" if model_msg else ""), "real": ("cut" if real_cut else "plain") + ("+error" if real_msg else ""),
+                          "model_out": tr.text(c["out"])[:120], "real_out": ob["nout"][:120]})
+
+
 def random_cyclic_cases(rng, n):
     cases = []
     for _ in range(n):
@@ -147,10 +275,13 @@ def random_cyclic_cases(rng, n):
 
 def run(tier: str) -> int:
     o = Outcome(PID, tier)
-    o.rule = ("(a) Gen_Expander universe C05: cyclic libraries x pages, deep nests; random cyclic libraries (V); nests 1..100 of four shapes. "
+    o.rule = ("(a) Gen_Expander universe C05: cyclic libraries x pages, deep nests; random cyclic libraries (V); nests 1..100 of four shapes; "
+              "Gen_ExpanderDepth: nesting ladders = pattern of rung kinds x depth x split over page / template bodies (one case per ladder). "
               "(b) see c05b. distinct_nontrivial = distinct (cut/no-cut, body of A, page) + distinct parser-function cases")
     o.assumptions = ["wall-clock bound 20 s per small generated page", "network-dependent parser functions run with the network helper stubbed"]
     thorough = tier == "thorough"
+    ladders = LadderTLC(tier)
+    ladders.start()
     uni = "C05" if thorough else "C05Q"
     r = tlc("Gen_Expander", f"Gen_Expander_{uni}.cfg", workers=1, timeout=3000)
     o.add_tlc(f"Gen_Expander[{uni}] laws+cases", r)
@@ -197,6 +328,28 @@ def run(tier: str) -> int:
         o.extra["part_b"] = "not available"
     if c05b is not None:
         c05b.run_b(o, tier)
+    # L: nesting ladders
+    ladders.join()
+    if ladders.err is not None:
+        raise ladders.err
+    r = ladders.res
+    o.add_tlc(f"Gen_ExpanderDepth[{tier}] laws+ladders", r)
+    o.add_tlc("Demo_ExpanderDepth_unbounded", ladders.demo)
+    o.extra["demo_uncounted_nesting_unbounded"] = bool(ladders.demo.invariant_violated)
+    if not ladders.demo.invariant_violated:
+        raise common.TLCError("Demo_ExpanderDepth_unbounded no longer shows the unbounded recursion of the as-is design (vacuity guard)")
+    lc = r.cases
+    _G["ladders"] = lc
+    if sum(1 for c in lc if c["cls"] == "cut") < 20 or sum(1 for c in lc if c["cls"] == "plain") < 20 or not any(c["asis_overrun"] for c in lc):
+        raise common.TLCError("ladder universe is vacuous")
+    print(f"[C05] {len(lc)} nesting ladders on the real code", flush=True)
+    order = sorted(range(len(lc)), key=lambda i: -sum(s["n"] for s in lc[i]["segs"]))
+    for ob in pmap(run_ladders, order, chunk=2):
+        judge_ladder(o, lc[ob["idx"]], ob)
+        o.traces += 1
+    o.extra["ladders"] = {"cases": len(lc), "predicted_cut": sum(1 for c in lc if c["cls"] == "cut"),
+                          "as_is_overrun": sum(1 for c in lc if c["asis_overrun"]), "as_is_behaviour_observed": _G.get("asis_ladders", 0)}
+    o.sample({"ladder": ladder_name(lc[order[0]]), "model_class": lc[order[0]]["cls"]})
     return o.finish()
 
 
